@@ -505,6 +505,9 @@ func init() {
 			})
 			gF.Wait()
 			if vsched.Ctr(xHolding) != 0 {
+				if vsched.Ctr(xInvoc) == 0 {
+					fail("C10.access-stuck", "the zero value was resolved (a ResolveWithReleased caller obtained it) but Access never invoked its callback with it: a resolved zero value is a value")
+				}
 				if n := vsched.Ctr(xRelCb); n != 1 {
 					fail("C10.released-cb-count", "the zero value held through ResolveWithReleased was invalidated: released callback fired %d times by the next quiescent state, want exactly 1", n)
 				}
